@@ -1715,8 +1715,10 @@ class _SchedView(object):
         def affinity_of(app_):
             """The affinity the stored manifest declares (instances without one share the unnamed affinity)."""
             man = store.nodes.get('/scheduled/' + app_.name)
+            if man is None or not man.data:
+                return app_.affinity.name          # no stored manifest (any more): nothing to compare with
             try:
-                return (json.loads(man.data.decode()) if man is not None and man.data else {}).get('affinity')
+                return (json.loads(man.data.decode()) or {}).get('affinity')
             except ValueError:
                 return app_.affinity.name
         self.affinity_of = affinity_of
